@@ -34,7 +34,7 @@ Admin ==
 \* (abstract nonces 1000.. and 2000.. stand for base + 2^32 + k and base + 2^63 + k)
 One(s, d, n) == CHOOSE m \in Variants(s, d, n) : m.from = "a1" /\ m.wire.rcpt = R1
 MCMsgs(s, h) == Variants(s, "d1", 0) \cup (IF Thorough THEN Variants(s, "d2", 0) \cup Variants(s, "d1", 1) \cup {One(s, "d1", 1000), One(s, "d1", 2000)}
-                                           ELSE {One(s, "d2", 0), One(s, "d1", 1), One(s, "d1", 1000), One(s, "d1", 2000)}) \cup Admin
+                                           ELSE {One(s, "d2", 0), One(s, "d1", 1), One(s, "d1", 1000), One(s, "d1", 2000), One(s, "d3", 47)}) \cup Admin
 
 Init == InitOver(MCInit)
 Next == NextOver(MCMsgs, IF Thorough THEN 5 ELSE 4)
